@@ -33,6 +33,8 @@ RESTR = {
     'names': {'givenName': None, 'mail': None, 'title': None},
     'regex': {'mail': [r'.*@example\.org$'], 'givenName': None, 'title': None},
     'regex-nothing': {'mail': ['^nomatch$'], 'givenName': None},
+    # two overlapping patterns: one value matches both, the other none
+    'regex-overlap': {'mail': [r'.*@example\.org$', r'^alice@example.*'], 'givenName': None, 'title': None},
 }
 CATS = ('absent', 'refeds', 'swamid', 'edugain')
 FAIL = ('absent', True, False)
@@ -59,7 +61,10 @@ SP_DECL = {
     'optional-only': (('title', False, ()),),
     'optional-absent': (('uid', False, ()),),
 }
-SP_CATS = {'none': (), 'rs': (RS,), 'coco': (COCO,), 'swamid-half': (SWAMID_RE,), 'swamid-full': (SWAMID_RE, SWAMID_HEI)}
+SP_CATS = {'none': (), 'rs': (RS,), 'coco': (COCO,), 'swamid-half': (SWAMID_RE,), 'swamid-full': (SWAMID_RE, SWAMID_HEI),
+           # the same category value listed twice (legal metadata): still only half of the swamid combination
+           'swamid-half-twice': (SWAMID_RE, SWAMID_RE), 'rs+swamid-half-twice': (RS, SWAMID_RE, SWAMID_RE)}
+QUERY = ('mail', 'title', 'secret', 'sn', 'displayName')       # attributes an AttributeQuery names (aa role)
 
 
 def sp_metadata(decl, cats):
@@ -206,15 +211,19 @@ def evaluate(c):
     res = []
     identity = IDENTITIES[c['ident']]
     allowed = permitted(identity, c['restr'], c['cat'], c['decl'], c['cats'])
-    for role in ('idp', 'aa'):
-        srv = server(c['entry'], c['restr'], c['cat'], c['fail'], c['decl'], c['cats'], role)
+    for role in ('idp', 'aa', 'aa+query'):
+        srv = server(c['entry'], c['restr'], c['cat'], c['fail'], c['decl'], c['cats'], role.split('+')[0])
         ident_copy = {k: list(v) for k, v in identity.items()}
         nid = saml.NameID(text='subject-1', format=saml.NAMEID_FORMAT_TRANSIENT)
         try:
             if role == 'idp':
                 r = srv.create_authn_response(ident_copy, 'req1', ACS_POST, SP_X, name_id=nid, authn={'class_ref': forge.PASSWORD})
-            else:
+            elif role == 'aa':
                 r = srv.create_attribute_response(ident_copy, 'req1', ACS_POST, SP_X, name_id=nid)
+            else:
+                # the query names attributes itself: that can only narrow what the policy allows
+                q = [saml.Attribute(name=OID.get(n, n), name_format=saml.NAME_FORMAT_URI, friendly_name=n) for n in QUERY]
+                r = srv.create_attribute_response(ident_copy, 'req1', ACS_POST, SP_X, name_id=nid, attributes=q)
             ok, rel = released(str(r))
             bad = []
             for name, vals in rel.items():
@@ -321,7 +330,7 @@ def run(ctx):
         'level': 'exploration',
         'coverage': {
             'evaluations': n + 2 * len(sq), 'distinct_nontrivial': len(nontriv), 'exhaustive': True, 'two_sp_sequences': len(sq),
-            'rule': 'two SPs of the same entity category with different required lists served in turn by one Server (all ordered pairs x 3 category policies x 2 restriction settings); %s over: identity (6, incl. case variants, multi-valued, non-ASCII, a "secret" attribute no policy names) x policy entry (default / per-SP / per-SP entry falling back to default) x attribute_restrictions (absent, None, names, regex, regex matching nothing) x entity_categories (absent, refeds, swamid, edugain) x fail_on_missing_requested (absent, True, False) x SP declaration (none, required subset, required missing, required+optional, value constraint met/unmet, optional only, optional absent) x SP entity categories (none, R&S, CoCo, half/full swamid tuple); each case through create_authn_response and create_attribute_response; non-trivial = the reference filter removes something' % ('complete product' if ctx.thorough else 'all pairs of dimensions from a base case + unsatisfiable requirements x every policy shape'),
+            'rule': 'two SPs of the same entity category with different required lists served in turn by one Server (all ordered pairs x 3 category policies x 2 restriction settings); %s over: identity (6, incl. case variants, multi-valued, non-ASCII, a "secret" attribute no policy names) x policy entry (default / per-SP / per-SP entry falling back to default) x attribute_restrictions (absent, None, names, regex, regex matching nothing, two overlapping regexes) x entity_categories (absent, refeds, swamid, edugain) x fail_on_missing_requested (absent, True, False) x SP declaration (none, required subset, required missing, required+optional, value constraint met/unmet, optional only, optional absent) x SP entity categories (none, R&S, CoCo, half/full swamid tuple, half tuple listed twice); each case through create_authn_response, create_attribute_response and create_attribute_response with the attributes an AttributeQuery names; non-trivial = the reference filter removes something' % ('complete product' if ctx.thorough else 'all pairs of dimensions from a base case + unsatisfiable requirements x every policy shape'),
             'samples': [{'case': cs[i0], 'outcomes': res[i0]}], 'distinct_outcomes': len(hist), 'outcome_histogram': hist,
         },
         'assumptions': ['the entity-category tables are data: the oracle carries an independent copy',
